@@ -413,6 +413,31 @@ def run_case(case):
 # --------------------------------------------------------------------------------------
 # generator
 # --------------------------------------------------------------------------------------
+def gen_halts(rng):
+    """several short execution sessions in a row, trading halt rules with low lines and lengths that reach across session ends,
+    plenty of sweeping orders: halts that are cut short by a session end, halts in the session after, repeated halts"""
+    case = gen_case(rng, long_ok=False)
+    cfg = case["cfg"]
+    mk = [m for m in cfg["simulation"]["markets"] if cfg[m]["class"] == "Market"]
+    sessions = []
+    for s in range(rng.randint(2, 4)):
+        sessions.append({"sessionName": s, "iterationSteps": rng.randint(2, 6), "withOrderPlacement": True,
+                         "withOrderExecution": rng.random() < 0.85, "withPrint": False, "maxNormalOrders": rng.choice([2, 3, 5]),
+                         "maxHighFrequencyOrders": rng.choice([0, 1]), "highFrequencySubmitRate": rng.choice([0.0, 1.0]), "events": []})
+    for name in [k for k in list(cfg) if k.startswith("EV") or k.startswith("PL")]:
+        del cfg[name]
+    for k in range(rng.randint(1, 2)):
+        name = "TH%d" % k
+        cfg[name] = {"class": "TradingHaltRule", "targetMarkets": rng.sample(mk, rng.randint(1, len(mk))),
+                     "triggerChangeRate": rng.choice([0.00390625, 0.0078125, 0.015625]), "haltingTimeLength": rng.randint(1, 9)}
+        sessions[rng.randrange(len(sessions) - 1)]["events"].append(name)
+    sessions[0]["events"].insert(0, "ALL")
+    cfg["simulation"]["sessions"] = sessions
+    cfg["N"]["numAgents"] = max(3, cfg["N"]["numAgents"])
+    case.update(malformed=None, batch_sizes=[1, 2, 3], pmkt=rng.choice([0, 0.1]))
+    return case
+
+
 def gen_malformed(rng, kind, who):
     """a case built so that the malformed batch is certainly reached: placement everywhere, high-frequency agents present and
     consulted after every batch"""
@@ -628,7 +653,10 @@ class SuiteS(engine.Suite):
                 for who in (True, False):
                     cases.append(gen_malformed(rng, kind, who))
         for i in range(n):
-            cases.append(gen_case(rng, long_ok=(tier != "quick" or i % 10 == 0)))
+            if i % 6 == 5:
+                cases.append(gen_halts(rng))
+            else:
+                cases.append(gen_case(rng, long_ok=(tier != "quick" or i % 10 == 0)))
         return cases
 
     def run_impl(self, case):
